@@ -65,10 +65,24 @@ func specKinds(t dsl.Type) int {
 			}
 			return kObj
 		case *dsl.Map:
-			if st, ok := d.KeyType.(*dsl.SimpleType); ok {
+			// "Maps where the key is a string are written as a JSON object. Other maps are written as an
+			// array of arrays" (ndjson.md): only the yardl string primitive (possibly behind aliases) -
+			// date/time/datetime keys are JSON strings too, but such maps are arrays of pairs
+			// (the Python runtime's MapConverter is checked against this by pysym h_json_kinds).
+			key := d.KeyType
+			for {
+				st, ok := key.(*dsl.SimpleType)
+				if !ok {
+					break
+				}
+				if nt, ok := st.ResolvedDefinition.(*dsl.NamedType); ok {
+					key = nt.Type
+					continue
+				}
 				if p, ok := st.ResolvedDefinition.(dsl.PrimitiveDefinition); ok && string(p) == "string" {
 					return kObj
 				}
+				break
 			}
 			return kArr
 		}
@@ -90,7 +104,7 @@ func kindNames(k int) string {
 // one union case: scalar leaf (all primitives / enum / flags / record / alias) or a container over a small leaf
 func (g *gen) anyUnionCase(small bool) dsl.Type {
 	if small {
-		switch verifChoose(g.label("casekind"), 4) {
+		switch verifChoose(g.label("casekind"), 5) {
 		case 0:
 			return primType(verifOneOf(g.label("prim"), "int32", "string", "float32", "bool"))
 		case 1:
@@ -98,6 +112,9 @@ func (g *gen) anyUnionCase(small bool) dsl.Type {
 			return ref(r)
 		case 2:
 			return &dsl.GeneralizedType{Cases: dsl.TypeCases{&dsl.TypeCase{Type: g.smallPrim()}}, Dimensionality: &dsl.Vector{}}
+		case 3:
+			key := primType(verifOneOf(g.label("key"), "string", "int32", "date"))
+			return &dsl.GeneralizedType{Cases: dsl.TypeCases{&dsl.TypeCase{Type: primType("int32")}}, Dimensionality: &dsl.Map{KeyType: key}}
 		default:
 			e := &dsl.EnumDefinition{DefinitionMeta: g.meta(g.label("E"))}
 			return ref(e)
@@ -123,8 +140,15 @@ func (g *gen) anyUnionCase(small bool) dsl.Type {
 	case 6:
 		return &dsl.GeneralizedType{Cases: dsl.TypeCases{&dsl.TypeCase{Type: g.smallPrim()}}, Dimensionality: g.anyArray()}
 	case 7:
-		key := primType(verifOneOf(g.label("key"), "string", "int32"))
-		return &dsl.GeneralizedType{Cases: dsl.TypeCases{&dsl.TypeCase{Type: g.smallPrim()}}, Dimensionality: &dsl.Map{KeyType: key}}
+		// map keys: every primitive (validateMaps admits any primitive scalar), directly or behind an alias
+		// (aliases of the two primitives whose JSON kind is string but whose maps differ; the value type is irrelevant)
+		var key dsl.Type
+		if verifChoose(g.label("keyalias"), 2) == 1 {
+			key = ref(&dsl.NamedType{DefinitionMeta: g.meta(g.label("K")), Type: primType(verifOneOf(g.label("akey"), "string", "date"))})
+		} else {
+			key = primType(verifOneOf(g.label("key"), allPrims...))
+		}
+		return &dsl.GeneralizedType{Cases: dsl.TypeCases{&dsl.TypeCase{Type: primType("int32")}}, Dimensionality: &dsl.Map{KeyType: key}}
 	default:
 		n := verifUint64(g.label("len"))
 		return &dsl.GeneralizedType{Cases: dsl.TypeCases{&dsl.TypeCase{Type: g.smallPrim()}}, Dimensionality: &dsl.Vector{Length: &n}}
